@@ -217,6 +217,10 @@ func refIP4(f *AbsFrame, p []byte) error {
 	ip.Src = netip.AddrFrom4([4]byte{p[12], p[13], p[14], p[15]})
 	ip.Dst = netip.AddrFrom4([4]byte{p[16], p[17], p[18], p[19]})
 	f.Pad = len(p) - ip.LenField
+	if ip.Dst.IsMulticast() && !bytes.Equal(f.EthDst, Mcast4MAC(ip.Dst)) {
+		// RFC 1112 6.4; the statement of C07 names the IPv6 mapping only, so this is a note
+		f.Notes = append(f.Notes, "mcast4-mac-not-rfc1112")
+	}
 	if ip.FragOff != 0 || ip.Flags&1 != 0 {
 		return refErr("ip4.fragment", "fragmented datagram (offset %d, MF %d)", ip.FragOff, ip.Flags&1)
 	}
